@@ -25,6 +25,11 @@ theorem virtual_default_yields {nm r : Mapping} {ms : List Mapping} (h : mergeOn
     (hd : r.Default = true) : ∀ m ∈ ms, m.Database = nm.Database → m.Default = false :=
   mergeOne_some_default h hd
 
+/-- the translator's `filterFunc` (regenerated from `dbrp/service.go` on every run) never dereferences
+    a nil filter field and decides exactly the conjunction of the seven optional equalities -/
+theorem filterFunc_total (m : Mapping) (f : Filter) :
+    Influx.Generated.DBRP.filterFunc m f = some (filterFuncSpec m f) := generated_filterFunc m f
+
 /-- `isDBRPUnique` is exactly: no other stored mapping reachable through the (org, database) index
     has the same retention policy -/
 theorem isDBRPUnique_iff (s : St) (m : Mapping) :
